@@ -1,5 +1,6 @@
 import BigDec.Proofs.Round
 import BigDec.Proofs.Value
+import BigDec.Proofs.RoundQ
 /-! # C06 — rounding to a scale obeys each of the seven rounding modes -/
 namespace BigDec
 open Generated Spec
@@ -34,6 +35,40 @@ theorem C06_representable (d : Dec) (ns : Int) (m : Mode) (h : ns < d.scale)
   rw [hrep, Nat.add_zero] at hd
   rw [mul_assoc, ← Nat.cast_mul, mul_comm (d.int.natAbs / _), hd]
   unfold sgn; exact sign_mul_natAbs d.int
+
+/-- the value of `d` in units of `10^-ns`, i.e. the exact quotient the rounding looks at -/
+theorem C06_scaled_value (d : Dec) (ns : Int) (h : ns < d.scale) :
+    d.value * (10 : ℚ) ^ ns = (d.int : ℚ) / (10 : ℚ) ^ (d.scale - ns).toNat := by
+  unfold Dec.value
+  have : ((d.scale - ns).toNat : Int) = d.scale - ns := by omega
+  rw [← zpow_natCast, this, mul_assoc, ← zpow_add₀ (by norm_num : (10 : ℚ) ≠ 0), div_eq_mul_inv, ← zpow_neg]
+  congr 2; ring
+
+/-- **what the seven modes mean, over ℚ.**  When digits are dropped (`ns < d.scale`), the unscaled
+    integer of `with_scale_round` is the textbook function of the exact value `x = d.value · 10^ns`:
+    `Floor` = ⌊x⌋, `Ceiling` = ⌈x⌉, `Down` = truncation toward zero, `Up` = away from zero,
+    `HalfUp` = nearest with ties away from zero, `HalfDown` = nearest with ties toward zero,
+    `HalfEven` = a nearest integer which is even at a tie. -/
+theorem C06_mode_meaning (d : Dec) (ns : Int) (h : ns < d.scale) :
+    let x : ℚ := d.value * (10 : ℚ) ^ ns
+    (d.withScaleRound ns .Floor).int = ⌊x⌋ ∧
+    (d.withScaleRound ns .Ceiling).int = ⌈x⌉ ∧
+    (d.withScaleRound ns .Down).int = (if 0 ≤ d.int then ⌊x⌋ else ⌈x⌉) ∧
+    (d.withScaleRound ns .Up).int = (if 0 ≤ d.int then ⌈x⌉ else ⌊x⌋) ∧
+    (d.withScaleRound ns .HalfUp).int = (if 0 ≤ d.int then ⌊x + 1 / 2⌋ else ⌈x - 1 / 2⌉) ∧
+    (d.withScaleRound ns .HalfDown).int = (if 0 ≤ d.int then ⌈x - 1 / 2⌉ else ⌊x + 1 / 2⌋) ∧
+    (|(((d.withScaleRound ns .HalfEven).int : Int) : ℚ) - x| ≤ 1 / 2 ∧
+      (|(((d.withScaleRound ns .HalfEven).int : Int) : ℚ) - x| = 1 / 2 → (d.withScaleRound ns .HalfEven).int % 2 = 0)) := by
+  intro x
+  have hx : x = (d.int : ℚ) / (10 : ℚ) ^ (d.scale - ns).toNat := C06_scaled_value d ns h
+  have hint : ∀ m, (d.withScaleRound ns m).int =
+      sgn d.int * ((roundNat m (decide (d.int < 0)) d.int.natAbs (d.scale - ns).toNat : Nat) : Int) := by
+    intro m
+    rw [withScaleRound_spec]; unfold Spec.roundToScale
+    rw [if_neg (by omega)]
+  rw [hint, hint, hint, hint, hint, hint, hint, hx]
+  exact ⟨round_floor _ _, round_ceiling _ _, round_down _ _, round_up _ _, round_halfUp _ _, round_halfDown _ _,
+    round_halfEven _ _⟩
 
 /-- the rounded magnitude is one of the two neighbouring multiples: `⌊n/10^k⌋` or `⌊n/10^k⌋+1`,
     and it is the lower one whenever the discarded tail is zero -/
